@@ -10,6 +10,7 @@ lacking any of the labels.
 import PromqlVerif.Proofs.Matchers
 import PromqlVerif.Eng
 import PromqlVerif.Proofs.OptSound
+import PromqlVerif.Proofs.PropSound
 namespace PromqlVerif.C09
 open PromqlVerif
 
@@ -108,6 +109,45 @@ example :
     let sel : List Matcher := [⟨.eq, "__name__", "m"⟩, ⟨.eq, "a", "b"⟩, ⟨.neq, "a", "c"⟩, ⟨.eq, "c", "d"⟩]
     usableReplacement top sel = true ∧
       matchAll [] (top ++ mergeFilters top sel) [⟨"__name__", "m"⟩, ⟨"a", "b"⟩] = false := by
+  decide
+
+/-- **PropagateMatchers leaves the value of the binary expression it rewrites unchanged**
+(`Proofs/PropSound.lean`): two plain selectors joined one-to-one on all labels, whose selections
+at the step have pairwise distinct label sets apart from the metric name (no duplicate series on
+either side, so the reference matching raises no error): the narrower selectors drop exactly the
+series that have no partner - a left series failing the right selector's non-name matchers cannot
+have a partner, since a partner carries the same labels and satisfies them (`propagate_sound` is the
+pair-level statement) - and what remains is matched as before, in the same order. Where `propBin`
+does not rewrite, there is nothing to show. Without the uniqueness hypothesis the rewrite can turn
+a duplicate-series error of the reference into a result (the dropped series may be the
+duplicates): the optimizer is sound only up to that error, which the `opt` oracle does not see
+because the engine lacks the check (KF-no-duplicate-check). -/
+theorem propagate_matchers_preserves_binary_value {V : Type} [Val V] (c : Ctx V) (op : String) (b : Bool)
+    (m : Matching) (ls rs : VSel) (t : Int)
+    (hul : ((selectV c ls t).map fun x => x.1.dropName).Nodup)
+    (hur : ((selectV c rs t).map fun x => x.1.dropName).Nodup) :
+    eval c t (propBin op b m (.vsel ls) (.vsel rs)) = eval c t (.bin op b m (.vsel ls) (.vsel rs)) :=
+  propagate_node_sound c op b m ls rs t hul hur
+
+/-- the rewrite the theorem is about: `m{a="x"} + n` becomes `m{a="x"} + n{a="x"}` -/
+example :
+    (propBin "+" false ⟨.oneToOne, false, [], []⟩
+      (.vsel ⟨[⟨.eq, "__name__", "m"⟩, ⟨.eq, "a", "x"⟩], 0, none, none⟩)
+      (.vsel ⟨[⟨.eq, "__name__", "n"⟩], 0, none, none⟩) : Expr Int)
+    = .bin "+" false ⟨.oneToOne, false, [], []⟩
+      (.vsel ⟨[⟨.eq, "__name__", "m"⟩, ⟨.eq, "a", "x"⟩], 0, none, none⟩)
+      (.vsel ⟨[⟨.eq, "__name__", "n"⟩, ⟨.eq, "a", "x"⟩], 0, none, none⟩) := by
+  rfl
+
+/-- ... over a storage on which the hypotheses hold and the rewrite narrows the right side: `n{a="y"}`
+is no longer selected, and the value is `m{a="x"} + n{a="x"}` either way -/
+example :
+    let c : Ctx Int := { st := [⟨[⟨"__name__", "m"⟩, ⟨"a", "x"⟩], [⟨0, .num 1⟩]⟩, ⟨[⟨"__name__", "n"⟩, ⟨"a", "x"⟩], [⟨0, .num 10⟩]⟩,
+                                ⟨[⟨"__name__", "n"⟩, ⟨"a", "y"⟩], [⟨0, .num 20⟩]⟩], lookback := 300000, start := 0 }
+    let ls : VSel := ⟨[⟨.eq, "__name__", "m"⟩, ⟨.eq, "a", "x"⟩], 0, none, none⟩
+    let rs : VSel := ⟨[⟨.eq, "__name__", "n"⟩], 0, none, none⟩
+    ((selectV c ls 1000).map fun x => x.1.dropName).Nodup ∧ ((selectV c rs 1000).map fun x => x.1.dropName).Nodup ∧
+      (selectV c rs 1000).length = 2 ∧ (selectV c { rs with matchers := rs.matchers ++ [⟨.eq, "a", "x"⟩] } 1000).length = 1 := by
   decide
 
 /-! ### the optimizers on whole plans -/
